@@ -104,9 +104,13 @@ def run_cell(cell, seed):
     G = refs.dtcwt_gain(cell['biort'], cell['qshift'], J, True)
     rnd = core.rng_for(seed, PROP, 'k', str(cell))
     full = {}
-    for kind in ['impulse', 'randn', rnd.choice(['dynrange', 'alt', 'outlier', 'ramp'])]:
+    for kind in ['impulse', 'randn', rnd.choice(['dynrange', 'alt', 'outlier', 'ramp']), 'tiny']:
         case = {'cell': cell, 'input': kind}
-        yl, yh = make_pyramid(cell, kind, seed, lo, det)
+        if kind == 'tiny':        # coefficients in units of 1e-10: nothing may be treated as negligible
+            yl, yh = make_pyramid(cell, 'randn', seed + 13, lo, det)
+            yl, yh = yl * 1e-10, [h * 1e-10 for h in yh]
+        else:
+            yl, yh = make_pyramid(cell, kind, seed, lo, det)
         m = max([float(yl.abs().max())] + [float(h.abs().max()) for h in yh])
         tol = 1e-11 * G * max(m, 1e-300)
         ok, y = util.call_lib(inv, (yl, yh))
